@@ -12,6 +12,7 @@ import (
 	"math/rand"
 	"os"
 	"path/filepath"
+	"runtime"
 	"sort"
 	"strings"
 	"time"
@@ -286,8 +287,8 @@ func (r *run) c01(g *gen.G, budget int) {
 	seed := uint32(g.R.Int31())
 	// corpus-like fixed inputs first (the historical defects)
 	fixed := [][]byte{
-		{6, 16, 2, 6, 0, 7, 1},                                 // ConnRes with 1 byte
-		{6, 16, 2, 6, 0, 6},                                    // ConnRes empty
+		{6, 16, 2, 6, 0, 7, 1}, // ConnRes with 1 byte
+		{6, 16, 2, 6, 0, 6},    // ConnRes empty
 		{6, 16, 4, 0x20, 0, 0x0d, 4, 1, 0, 0, 0x11, 200, 1, 2}, // info length 200
 		{6, 16, 4, 0x20, 0, 0x0d, 4, 1, 0, 0, 0x11, 4, 1},      // info length 4, 1 present
 		{6, 16, 2, 4, 0, 8, 0, 1},                              // DIB length 0
@@ -295,9 +296,9 @@ func (r *run) c01(g *gen.G, budget int) {
 		{6, 16, 2, 4, 0, 9, 3, 3, 9},                           // DIB length 3 (unparsed type)
 		{6, 16, 2, 4, 0, 12, 6, 1, 0, 0, 0, 0},                 // short device info
 		{6, 16, 2, 4, 0, 36, 30, 1, 0, 0, 0, 0, 0, 0, 0, 0, 0, 0, 0, 0, 0, 0, 0, 0, 0, 0, 0, 0, 0, 0, 0, 0, 0, 0, 0, 0}, // device info of 30 bytes
-		{6, 16, 5, 0x30, 0, 17, 0x29, 0, 0xbc, 0xe0, 0x11, 1, 9, 2, 9, 0, 0x80}, // TPDU length 9, 1 byte present
-		{6, 16, 2, 4, 0, 10, 4, 2, 1, 2},                                      // services DIB
-		{6, 16, 2, 2, 0, 16, 8, 1, 1, 2, 3, 4, 0, 5, 200, 1},                  // search res truncated
+		{6, 16, 5, 0x30, 0, 17, 0x29, 0, 0xbc, 0xe0, 0x11, 1, 9, 2, 9, 0, 0x80},                                         // TPDU length 9, 1 byte present
+		{6, 16, 2, 4, 0, 10, 4, 2, 1, 2},                     // services DIB
+		{6, 16, 2, 2, 0, 16, 8, 1, 1, 2, 3, 4, 0, 5, 200, 1}, // search res truncated
 	}
 	for _, f := range fixed {
 		r.c01Input("dec", f, seed)
@@ -895,7 +896,7 @@ func specLData(code uint8, l *cemi.LData) []byte {
 		w.put(0, 1)
 		w.put(b2u(t.Numbered), 1)
 		w.put(uint(t.SeqNumber), 4)
-		w.put(uint(t.Command), 4) // APCI: high two bits end the TPCI octet, low two start the next
+		w.put(uint(t.Command), 4)    // APCI: high two bits end the TPCI octet, low two start the next
 		w.put(uint(t.Data[0])&63, 6) // only six bits of the first data octet exist on the wire
 		w.bytes(t.Data[1:])
 	case *cemi.ControlData:
@@ -1493,25 +1494,36 @@ func main() {
 		classes: map[string]int{}, distinct: map[string]bool{}, findings: []finding{}, samples: []string{}}
 	g := gen.New(*seed)
 	start := time.Now()
-	switch *prop {
-	case "C01":
-		r.c01(g, *budget)
-	case "C02":
-		r.c02(g, *budget)
-	case "C15":
-		r.c15(g, *budget)
-	case "C11":
-		r.c11(g, *budget)
-	case "C11h":
-		r.c11h(g, *budget)
-	case "C18":
-		r.c18(g, *budget)
-	case "C12":
-		r.c12(g, *budget)
-	default:
-		fmt.Fprintln(os.Stderr, "unknown -prop")
-		os.Exit(2)
-	}
+	func() {
+		// a panic of the library outside the guarded calls (a generator building a value through the
+		// library, a call on the main goroutine) is a finding, not a harness failure
+		defer func() {
+			if p := recover(); p != nil {
+				buf := make([]byte, 4096)
+				n := runtime.Stack(buf, false)
+				r.violation("library-panic", "a call into the library made by the generator / harness itself", fmt.Sprint(p)+" | "+strings.ReplaceAll(string(buf[:n]), "\n", " "))
+			}
+		}()
+		switch *prop {
+		case "C01":
+			r.c01(g, *budget)
+		case "C02":
+			r.c02(g, *budget)
+		case "C15":
+			r.c15(g, *budget)
+		case "C11":
+			r.c11(g, *budget)
+		case "C11h":
+			r.c11h(g, *budget)
+		case "C18":
+			r.c18(g, *budget)
+		case "C12":
+			r.c12(g, *budget)
+		default:
+			fmt.Fprintln(os.Stderr, "unknown -prop")
+			os.Exit(2)
+		}
+	}()
 	r.ops.Flush()
 	r.impl.Flush()
 	of.Close()
